@@ -170,6 +170,8 @@ fn dispatch_shapes(ctx: &Ctx, rep: &mut Report) {
         "65536", "99999", "38;4", "7;38;4;9", "48;1", "38", "1;38", "38;48:5:1;4", "0;1;3;4;5;7;9;38;2;10;20;30;48;2;40;50;60",
         // fewer parameters than the function reads (the missing ones are defaults, never leftovers)
         "8", "8;10", "8;10;", "8;;7", "8;10;20", "8:1;10", "08;010;020",
+        // the value is what the digits say, however many of them there are
+        "000003", "0000000005;0000000007", "00000000000000000001", "000000", "0000065535", "1;000002;3", "38;5;0000200", "38:2:0000001:0000002:0000003",
     ]
     .iter()
     .map(|s| s.to_string())
